@@ -331,6 +331,17 @@ def run(ctx):
                     for b in bads:
                         rej.append((f"out-of-range {k}={b}", lambda k=k, b=b: copy.deepcopy(obj).update(**{k: b})))
                         rej.append((f"out-of-range {k}={b} (ctor)", lambda k=k, b=b: cls(**dict(realfuzz.BASE[cn], **{k: b}))))
+            if cn == "MassFunction":
+                # out-of-range model parameters: Tinker10 needs gamma > 0, eta > -1/2, eta - phi > -1/2, beta > 0 for the values it uses at the
+                # object's redshift (coefficients evolve as (1+z)^exp); both values already bad at z=0 and values that only leave the range at z>0
+                for (z_, hp_, why_) in [(0.0, {"eta_200": -0.6}, "eta=-0.6"), (0.0, {"gamma_200": -0.1}, "gamma=-0.1"), (0.0, {"beta_200": -0.2}, "beta=-0.2"),
+                                        (0.0, {"phi_200": 0.3, "eta_200": -0.25}, "eta-phi=-0.55"),
+                                        (1.0, {"eta_200": -0.45}, "eta(z=1)=-0.45*2^0.27=-0.543"), (2.0, {"phi_200": 0.2, "eta_200": -0.28}, "eta-phi at z=2 = -0.377-0.183=-0.56"),
+                                        (1.0, {"eta_200": -0.2, "eta_exp": 1.5}, "eta(z=1)=-0.2*2^1.5=-0.566"), (1.0, {"gamma_200": 0.5, "beta_200": -1e-3}, "beta<0")]:
+                    kw_ = dict(realfuzz.BASE[cn], hmf_model="Tinker10", mdef_model="SOMean", mdef_params={"overdensity": 200}, z=z_, hmf_params=dict(hp_))
+                    rej.append((f"out-of-range Tinker10 parameters {hp_} at z={z_} ({why_})", lambda kw_=kw_: (lambda o_: o_.fsigma)(cls(**copy.deepcopy(kw_)))))
+                    kw0_ = dict(kw_, z=0.0, hmf_params={})
+                    rej.append((f"out-of-range Tinker10 parameters {hp_} at z={z_} ({why_}) (update)", lambda kw0_=kw0_, z_=z_, hp_=hp_: (lambda o_: (o_.fsigma, o_.update(z=z_, hmf_params=dict(hp_)), o_.fsigma))(cls(**copy.deepcopy(kw0_)))))
             for what, f in rej:
                 n_checks += 1
                 try:
